@@ -766,6 +766,39 @@ Proof.
   intros H; inversion H; subst. cbn [s_lv assoc]. rewrite String.eqb_refl. reflexivity.
 Qed.
 
+(* ------------------------------------------------------------------ scopes of local_vars *)
+
+Definition fake_ops (fields : list (string * bool)) : list op :=
+  map (fun f => OFake (fst f) (snd f)) fields.
+
+Lemma run_ops_fakes tbl ni y fields rest stack s :
+  run_ops tbl ni y (fake_ops fields ++ rest) stack s
+  = (do '(vs, s1) <- run_fakes tbl ni y fields s;
+     do ws <- run_ops tbl ni y rest stack s1;
+     Ok (vs ++ ws)).
+Proof.
+  revert s. induction fields as [|[q m] fields IH]; intros s; cbn [fake_ops map app run_ops run_fakes fst snd].
+  - cbn [bind]. destruct (run_ops tbl ni y rest stack s); reflexivity.
+  - destruct (fake_step tbl ni y q m s) as [[v s1]|e]; cbn [bind]; [|reflexivity].
+    fold (fake_ops fields). rewrite IH.
+    destruct (run_fakes tbl ni y fields s1) as [[vs s2]|e]; cbn [bind]; [|reflexivity].
+    destruct (run_ops tbl ni y rest stack s2); reflexivity.
+Qed.
+
+(* A nested object (or friend) runs with empty local_vars, and whatever it generates — first
+   and last names included — what follows it in the enclosing template sees exactly the
+   local_vars the enclosing template had before: the e-mail / username of a row is built from
+   the names recorded for THAT row. *)
+Theorem nested_context_isolated :
+  forall tbl ni y inner rest stack s,
+    run_ops tbl ni y (OPush :: fake_ops inner ++ OPop :: rest) stack s
+    = (do '(vs, s1) <- run_fakes tbl ni y inner (mkSt [] (s_flog s) (s_draws s));
+       do ws <- run_ops tbl ni y rest stack (mkSt (s_lv s) (s_flog s1) (s_draws s1));
+       Ok (vs ++ ws)).
+Proof.
+  intros. cbn [run_ops]. rewrite run_ops_fakes. reflexivity.
+Qed.
+
 (* ------------------------------------------------------------------ regression / residue *)
 
 (* values Faker produced for locale en_TH (corpus/C18/k1_uuid_truncated_away.json): before the
